@@ -19,6 +19,7 @@ THEOREMS = ["LNN.C02_sound",
             "LNN.C02_never_tighter_call",
             "LNN.C02_never_tighter",
             "LNN.C02_never_tighter_infer",
+            "LNN.C02_never_tighter_executed",
             "LNN.C02_closed_iff_ground",
             "LNN.C02_never_tighter_than_ground_fixpoint",
             "LNN.C02_point_is_closed"]
